@@ -11,49 +11,8 @@ From Coq Require Import String.
 From Coq Require Import List ZArith NArith Bool Arith Lia.
 Import ListNotations.
 Require Import PyLib PyLib2 PyRe Str IpText Rx RxFacts RxSub G_rx G_text_consts Memo IpModel TextModel TotalProofs G_fn_sir2 G_fn_files RefJun RefJunDec RefIpCommon RefValue RefItem.
+Require Export RefIoBase.
 Notation vstr := RefJun.vstr.
-
-(* ---- the cache of an IP anonymizer as a Python value, and back ---- *)
-Definition dbits (v : pyval) : list bool := match v with VStr s => map (Z.eqb 49) s | _ => [] end.
-Definition decD (l : list (pyval * pyval)) : Memo.bidict := map (fun kv => (dbits (fst kv), dbits (snd kv))) l.
-Lemma dbits_VS b : dbits (VS b) = b.
-Proof. unfold VS, enc, dbits. rewrite map_map. induction b as [|x b IH]; cbn [map]; [reflexivity|]. rewrite IH. destruct x; reflexivity. Qed.
-Lemma decD_encD d : decD (encD d) = d.
-Proof. unfold decD, encD. induction d as [|[k v] d IH]; cbn [map fst snd]; [reflexivity|]. now rewrite !dbits_VS, IH. Qed.
-
-(* ---- anonymize_ip_addr only changes the cache of the anonymizer it is given ---- *)
-Definition same_static (t a : anonymizer) : Prop := a = with_cache t (a_cache a).
-Lemma same_static_refl_cache t d : same_static t (with_cache t d). Proof. reflexivity. Qed.
-Lemma sub_loop_state {St} (s : str) (P : St -> Prop) r (cb : St -> nat -> nat -> caps -> St * list chr) :
-  (forall st a b c, P st -> P (fst (cb st a b c))) -> forall fuel st i, P st -> P (fst (sub_loop s fuel r cb st i)).
-Proof.
-  intros Hcb. induction fuel as [|fuel IH]; intros st i Hst; cbn [sub_loop]; [exact Hst|].
-  destruct (search_from s (slen s - i) r i) as [[[a b] c]|]; [|exact Hst].
-  specialize (Hcb st a b c Hst). destruct (cb st a b c) as [st1 rep]. cbn [fst] in Hcb.
-  specialize (IH st1 b Hcb). destruct (sub_loop s fuel r cb st1 b) as [st2 rest]. exact IH.
-Qed.
-Lemma ip_line_static t v6 undo a l a' l' : same_static t a -> anonymize_ip_line v6 undo a l = Done (a', l') -> same_static t a'.
-Proof.
-  intros Ha. unfold anonymize_ip_line, sub_fn. destruct (nullable (if v6 then IPV6_RX else IPV4_RX)); [discriminate|].
-  assert (Hcb : forall (st : outcome anonymizer) i j (c : caps), (forall x, st = Done x -> same_static t x) ->
-                 forall x, fst (ip_match v6 undo st (substr l i j)) = Done x -> same_static t x).
-  { intros st i j c Hst. unfold ip_match. destruct st as [x|w]; [|intros y [=]].
-    destruct (if v6 then parse6 (substr l i j) else make_addr4 (substr l i j)) as [n|]; [|exact Hst].
-    destruct (negb (if v6 then true else should_anonymize4 x n)); [exact Hst|].
-    unfold anonymize_int, deanonymize_int.
-    destruct undo; (destruct (negb (in_range x n)); [intros y [=]|]).
-    - destruct (Memo.deanonymize _ _ _ _ _) as [[d y]|]; cbn [fst]; [|intros z [=]]. intros z [= <-]. rewrite (Hst x eq_refl). reflexivity.
-    - destruct (Memo.anonymize _ _ _ _ _) as [[d y]|]; cbn [fst]; [|intros z [=]]. intros z [= <-]. rewrite (Hst x eq_refl). reflexivity. }
-  pose proof (sub_loop_state l (fun st : outcome anonymizer => forall x, st = Done x -> same_static t x) (if v6 then IPV6_RX else IPV4_RX)
-                (fun st i j _ => ip_match v6 undo st (substr l i j)) (fun st a0 b c => Hcb st a0 b c) (S (slen l)) (Done a) 0%nat ltac:(intros x [= <-]; exact Ha)) as Hinv.
-  cbv beta in Hinv.
-  destruct (sub_loop l (S (slen l)) (if v6 then IPV6_RX else IPV4_RX) (fun st i j _ => ip_match v6 undo st (substr l i j)) (Done a) 0) as [[x|w] out]; [|discriminate].
-  intros [= <- <-]. exact (Hinv x eq_refl).
-Qed.
-
-(* ---- the dispatcher for anonymize_io: the three stages that are not translated (regex callbacks) answered by the MODEL's stage functions;
-        everything else as sir_call.  Static parts of the run are parameters: the templates of the two IP anonymizers (everything but the
-        cache), the word anonymizer and the AS-number anonymizer (immutable in the model). ---- *)
 Section IO.
 Variable orc : oracle.
 Variables t4 t6 : anonymizer.
@@ -61,9 +20,6 @@ Variable wa : option word_anonymizer.
 Variable asa : option as_anonymizer.
 Definition tbl := concat PWD_REGEXES.
 Definition CR : pyval := VList (map enc_group (index_groups 0 PWD_REGEXES)).
-Definition eip (v6 : bool) (a : anonymizer) : pyval := VTuple [VBool v6; VBidict (encD (a_cache a))].
-Definition TOKW : pyval := VStr [87%Z].
-Definition TOKA : pyval := VStr [65%Z].
 Definition io_call (f a : pyval) : PyLib.res :=
   match f with
   | VFun n =>
